@@ -87,12 +87,15 @@ def _stale(p):
     for name, fn in (("s", lambda f: f.s), ("len", len), ("str", str), ("repr", repr)):
         if fn(p) != fn(fr):
             return f"memoised {name}={fn(p)!r} but fresh {fn(fr)!r}"
-    try:
-        fw = fr.width
-    except ValueError:
-        return ""
-    if p.width != fw:
-        return f"memoised width={p.width} but fresh {fw}"
+    def w(x):
+        try:
+            return ("value", x.width)
+        except ValueError:
+            return ("raises ValueError",)
+    # (an unmeasurable value - a control character in some run - must keep raising: a failed observation leaves nothing behind)
+    fw, pw = w(fr), w(p)
+    if pw != fw:
+        return f"memoised width {pw} but fresh {fw}"
     return ""
 
 
